@@ -36,10 +36,34 @@ ID = 'C19'
 KERNELS = ['Gen/TypeTables.v: type_names', 'Gen/TypeTables.v: decimal', 'Gen/TypeTables.v: type_mappings',
            'Gen/TypeTables.v: acceptable_types', 'Gen/TypeTables.v: verifier_dispatch',
            'Gen/TypeTables.v: need_conversion', 'Gen/TypeTables.v: json_keys']
-SHARD = 200
-RULE = ''
-ASSUMPTIONS = []
-TRUSTED = []
+SHARD = 400
+RULE = ('type trees: all 16 leaves (12 atomic types, 4 decimals), every depth-1 tree over them (arrays, maps, '
+        'one-field structs with both nullabilities and two metadata dicts), every depth-2 tree built from those '
+        '(thorough; 600 sampled in quick), sampled depth 3..6 trees with random names/metadata -- each through '
+        'jsonValue(), json() and _parse_datatype_json_string; the parser on decimal(p,s) strings with random '
+        'whitespace/leading zeros/trailing text and on JSON descriptions with one damaged position (key dropped, '
+        'type string replaced, sub-value replaced by a scalar, falsy metadata, non-string name); rows: for every '
+        'leaf and depth-1 tree (sampled depth-2/3 trees) as a column, a full Row plus one Row per nullable '
+        'position holding a null exactly there, random rows with nulls, through createDataFrame with the schema '
+        'inferred and with the explicit schema; single-position damages of a valid row (null in a non-nullable '
+        'position incl. map keys, a value of a wrong Python type, an out-of-range integer, wrong arity, missing '
+        'field) through createDataFrame(schema) and the verifier directly (struct values as Row/tuple/dict); '
+        'Rows through pickle (protocols 2 and highest), asDict() and asDict(True); pairs of partially erased '
+        'trees through _merge_type. non-trivial = tree of depth >= 1 or non-atomic leaf / non-empty row list; '
+        'distinct by canonical JSON of the case')
+ASSUMPTIONS = [
+    'json.loads(json.dumps(v, sort_keys=True)) returns v with every dict re-ordered by key (model: jsort); the json '
+    'module is otherwise a black box; metadata values are None/bool/int/finite float/str/list/dict with str keys',
+    'the decimal(p,s) matcher is modelled for ASCII input (\\d = 0-9, \\s = \\t\\n\\v\\f\\r \\x1c-\\x1f and space)',
+    'the harness runs with TZ=UTC, so astimezone() converts to offset 0 (the theorems hold for any local offset)',
+    'pickle is a black box that stores containers element-wise and calls Row.__reduce__; modelled: what __reduce__ '
+    'returns and what create_row rebuilds',
+    'map keys are hashable atoms; rows are Row objects (tuples at the top level in some explicit-schema cases); '
+    'damaged JSON descriptions keep boolean flags boolean and never contain pyClass (user-defined types are out of scope)',
+    'Decimal, date, datetime payloads are opaque to the model (identified by string / ordinal / microseconds)',
+]
+TRUSTED = ['translator/kernels/c19.py (tables emitted as Gallina text from the ast of sql/types.py)',
+           'py/c19.py encoders of type trees, JSON values and Python values; coq/Run/C19_run.v decoders']
 
 ATOMS = {'string': T.StringType, 'binary': T.BinaryType, 'boolean': T.BooleanType, 'float': T.FloatType,
          'double': T.DoubleType, 'byte': T.ByteType, 'short': T.ShortType, 'integer': T.IntegerType,
